@@ -20,7 +20,25 @@ G = "MiniMcmcVerif.Gibbs."
 
 CAT = "MiniMcmcVerif.Categorical."
 
+MH = "MiniMcmcVerif.MH."
+
 PROPS = {
+    "C01": {
+        "obligations": [MH + n for n in ["mh_step_rule", "mh_step_accept", "mh_step_reject", "mh_step_mem", "accepts_iff",
+                                         "mh_reject_bad", "mh_reject_nan", "mh_reject_nan_lnu", "mh_never_bad",
+                                         "accept_region", "ratio_is_exp_logRatio", "flow_eq_min",
+                                         "mh_detailed_balance", "trans_row_sum", "trans_balance", "mh_stationary"]]
+                       + ["MiniMcmcVerif.XR.xr_satisfies_laws"],
+        "level_text": "Theorems: for every Target/Proposal (arbitrary functions), state type, scalar and every ln u, the step model ends at y iff ln u < [logp y + q(x|y)] - [logp x + q(y|x)] and "
+                      "otherwise returns x itself; for every carrier with the listed IEEE laws a NaN/-inf candidate density or a NaN anywhere in the ratio is rejected for every u (u = 0 included); over R the acceptance "
+                      "set of u is (0, min 1 (exp r)); on every finite state space with any non-negative (asymmetric, zeros allowed) proposal matrix the kernel satisfies detailed balance and the target is "
+                      "stationary. Tied to metropolis_hastings.rs by table-driven Target/Proposal with injected u and exact comparison of the decision and of the resulting state bits with the model at Float/Float32.",
+        "level_note": "Trusted: hardware floats satisfy IEEELaws (law table spot-checked natively under C14); Rust's ln and Lean's Float.log are the same libm function; rand's StandardUniform bit layout (self-tested).",
+        "rule": "2-4 abstract states with log-density and proposal tables drawn from a palette (finite random, equal values, +-inf, NaN, +-0, subnormal, huge), asymmetric 85% of the time; scripted candidates; "
+                "1-4 consecutive steps; u in {0, 1 grid step, 1-ulp, 1/2, the grid neighbours of exp(ratio), random}; state types i32/f64/f32, scalars f64/f32; distinct by (scalar, 4 table entries, u)",
+        "trusted": ["IEEE special-value laws hold for hardware floats", "Rust f64::ln/f32::ln and Lean Float.log/Float32.log are glibc log/logf"],
+        "assumptions": ["the Proposal's own randomness is outside this property (candidates are scripted)"],
+    },
     "C16": {
         "obligations": [CAT + n for n in ["sample_in_range", "sample_pos_prob", "scan_pos", "normalize_sum_one", "normalize_nonneg",
                                           "scan_region", "sample_region", "region_length", "lastPos_pos", "lastPos_none"]],
